@@ -68,9 +68,9 @@ def corpus():
 
 
 def shards(tier, seed):
-    out = [dict(kind="gen", seed=seed * 1000 + i, n=120 if tier == "quick" else 3000) for i in range(12)]
+    out = [dict(kind="gen", seed=seed * 1000 + i, n=120 if tier == "quick" else 15000) for i in range(12)]
     out.append(dict(kind="corpus"))
-    n = 40 if tier == "quick" else 600
+    n = 40 if tier == "quick" else 4000
     out += [dict(kind="cross", seed=seed * 1000 + i, n=n) for i in range(4)]
     return out
 
